@@ -51,11 +51,12 @@ static void emit(std::string const &s) { tr.line(s); }
 static void emit_flush(std::string const &s) { tr.line(s); fflush(tr.f); }
 
 // ---------------------------------------------------------------- server-side event log
-struct sev { char kind; int val; };          // 'H' handler, 'S' setup (filter installed), 'E' on_error, 'C' complete(ec), 'P' prepare, 'R' read(n)
+struct sev { char kind; int val; long tag; };   // tag: X-B marker of the request (H,S,E) / connection id of the hook event (P,C)          // 'H' handler, 'S' setup (filter installed), 'E' on_error, 'C' complete(ec), 'P' prepare, 'R' read(n)
 static std::mutex ev_mx;
 static std::vector<sev> ev_log;
 static bool hooks_seen=false;
-static void ev_add(char k,int v=0) { std::lock_guard<std::mutex> g(ev_mx); ev_log.push_back(sev{k,v}); }
+static void ev_add(char k,int v=0,long tag=0) { std::lock_guard<std::mutex> g(ev_mx); ev_log.push_back(sev{k,v,tag}); }
+static long hook_conn(char const *line) { char const *q=strstr(line,"\"c\":"); return q?atol(q+4):0; }
 static std::vector<sev> ev_take() { std::lock_guard<std::mutex> g(ev_mx); std::vector<sev> r; r.swap(ev_log); return r; }
 
 // hook listener (events exist only if /repo carries the proposed C01C02 hooks)
@@ -64,9 +65,9 @@ static void hook_listener(char const *line)
 	char const *p;
 	if((p=strstr(line,"\"e\":\"Complete\""))) {
 		char const *q=strstr(line,"\"ec\":");
-		ev_add('C',q?atoi(q+5):0); hooks_seen=true;
+		ev_add('C',q?atoi(q+5):0,hook_conn(line)); hooks_seen=true;
 	}
-	else if((p=strstr(line,"\"e\":\"Prepare\""))) { ev_add('P',0); hooks_seen=true; }
+	else if((p=strstr(line,"\"e\":\"Prepare\""))) { ev_add('P',0,hook_conn(line)); hooks_seen=true; }
 	else if((p=strstr(line,"\"e\":\"Read\""))) {
 		char const *q=strstr(line,"\"n\":");
 		ev_add('R',q?atoi(q+4):0); hooks_seen=true;
@@ -82,6 +83,7 @@ static void put2(std::string &o,char tag,std::string const &a,std::string const 
 {
 	char b[64]; snprintf(b,sizeof(b),"%c %zu %zu\n",tag,a.size(),c.size()); o+=b; o+=a; o+=c; o+='\n';
 }
+static long xb_of(cppcms::http::request &rq) { return atol(rq.getenv("HTTP_X_B").c_str()); }
 static std::string serialise(cppcms::http::request &rq)
 {
 	std::string o;
@@ -109,15 +111,16 @@ public:
 	echo_app(cppcms::service &s) : cppcms::application(s) {}
 	virtual void main(std::string)
 	{
-		ev_add('H');
+		ev_add('H',0,xb_of(request()));
 		response().set_plain_text_header();
 		response().out() << serialise(request());
 	}
 };
 
 struct filt : public cppcms::http::basic_content_filter {
+	long xb; filt(long x=0) : xb(x) {}
 	virtual void on_end_of_content() {}
-	virtual void on_error() { ev_add('E'); }
+	virtual void on_error() { ev_add('E',0,xb); }
 };
 
 // asynchronous application with a content filter: main() is called once when the headers are ready
@@ -128,11 +131,11 @@ public:
 	virtual void main(std::string)
 	{
 		if(!request().is_ready()) {
-			ev_add('S');
-			request().reset_content_filter(new filt());
+			ev_add('S',0,xb_of(request()));
+			request().reset_content_filter(new filt(xb_of(request())));
 			return;
 		}
-		ev_add('H');
+		ev_add('H',0,xb_of(request()));
 		response().set_plain_text_header();
 		response().out() << serialise(request());
 	}
@@ -140,14 +143,15 @@ public:
 
 // bodies read in chunks: a raw_content_filter / a multipart_filter installed when the headers are ready
 struct rawfilt : public cppcms::http::raw_content_filter {
-	size_t n; rawfilt() : n(0) {}
+	size_t n; long xb; rawfilt(long x=0) : n(0),xb(x) {}
 	virtual void on_data_chunk(void const *,size_t sz) { n+=sz; }
 	virtual void on_end_of_content() {}
-	virtual void on_error() { ev_add('E'); }
+	virtual void on_error() { ev_add('E',0,xb); }
 };
 struct mpfilt : public cppcms::http::multipart_filter {
+	long xb; mpfilt(long x=0) : xb(x) {}
 	virtual void on_end_of_content() {}
-	virtual void on_error() { ev_add('E'); }
+	virtual void on_error() { ev_add('E',0,xb); }
 };
 template<typename F>
 class chunk_app : public cppcms::application {
@@ -156,11 +160,11 @@ public:
 	virtual void main(std::string)
 	{
 		if(!request().is_ready()) {
-			ev_add('S');
-			request().reset_content_filter(new F());
+			ev_add('S',0,xb_of(request()));
+			request().reset_content_filter(new F(xb_of(request())));
 			return;
 		}
-		ev_add('H');
+		ev_add('H',0,xb_of(request()));
 		response().set_plain_text_header();
 		response().out() << serialise(request());
 	}
